@@ -1,7 +1,7 @@
 From Coq Require Import List NArith ZArith Bool.
 From SK Require Import lib.LGraph lib.Mono.
 From SK Require model.C06_Model model.C11_Model.
-From SK Require Import model.C03_Model model.C05_Model proof.C05_Proof proof.C05_Glue proof.C05_Pipe proof.C05_Prep proof.C05_Comp proof.C05_Main proof.C05_Order proof.C05_Sub proof.C05_Set proof.C05_Result proof.C05_AllStrat proof.C05_PrepOrder proof.C05_Final proof.C05_Default proof.C05_Rewrite proof.C05_Capstone proof.C05_Thms.
+From SK Require Import model.C03_Model model.C05_Model proof.C05_Proof proof.C05_Glue proof.C05_Pipe proof.C05_Prep proof.C05_Comp proof.C05_Main proof.C05_Order proof.C05_Sub proof.C05_Set proof.C05_Result proof.C05_AllStrat proof.C05_PrepOrder proof.C05_Final proof.C05_Default proof.C05_Rewrite proof.C05_Capstone proof.C05_Refuted proof.C05_Thms.
 From SK Require Import lib.C06_Spec proof.C06_Comp.
 From SK Require proof.C11_Dedup.
 From Coq Require Import Permutation.
@@ -381,3 +381,16 @@ Theorem C05_pipeline_checked_default :
        exists T, In T (glued_of strat host0 (prep_default inv tpl0)) /\ obs_eq (relabel (apply_map pi) T) T').
 Proof. exact thm_pipeline_checked_default. Qed.
 Print Assumptions C05_pipeline_checked_default.
+
+(** 13. REFUTED on the explicit-hydrogen path (the code is kept as it is; known finding "explicit-path:bt-equals-comp"):
+    "the fallback strategy returns the component-aware result whenever that is non-empty" (3 holds it for patterns without
+    explicit X-H bonds).  When the pattern keeps explicit X-H bonds, _glue_graph re-matches the explicit pattern on the
+    hydrogen-expanded substrate with the strategy again, so BACKTRACK re-decides its fallback per kept match.  Witness:
+    Data/Testcase reaction 47 (centre template, forwards, implicit_temp=True): the component-aware search keeps 3 matches
+    and glues 2 graphs, BACKTRACK glues 4. *)
+Theorem C05_bt_equals_comp_explicit_path_refuted :
+  exists (host : hostg) (p : prepared),
+    p_flag p = true /\ raw_of 1%N host p <> [] /\
+    length (glued_of 1%N host p) = 2%nat /\ length (glued_of 2%N host p) = 4%nat.
+Proof. exact thm_bt_equals_comp_explicit_path_refuted. Qed.
+Print Assumptions C05_bt_equals_comp_explicit_path_refuted.
